@@ -5,6 +5,7 @@ import langcheck
 import langlib
 
 LEVEL = "model_checking"
+COMPILES_PROGRAMS = True      # check reports mlang.Compile's long-lived-compiler comparison (vlib.report_compiler_reuse)
 META = {
     "text": "The reference semantics MtailLang!ExecLine is a function of (program, metrics, line) only; the implementation-shaped strptime memo "
             "is state of the model under DEV_Memo* switches.  TLC checks MemoFree (a line's effect is independent of the memo) on every "
